@@ -161,11 +161,16 @@ impl ReplicationMessage {
     }
 
     pub fn replicated(&self, server_name: &String) -> &ReplicationMessage {
-        self.replicate_count.fetch_add(1, Ordering::Relaxed);
-        self.replications
+        let previous = self
+            .replications
             .lock()
             .unwrap()
             .insert(server_name.to_string(), false);
+        // A node whose acknowledgement is still outstanding is counted once: registering it
+        // again must not make the operation wait for two acknowledgements from one node
+        if previous != Some(false) {
+            self.replicate_count.fetch_add(1, Ordering::Relaxed);
+        }
         return self;
     }
 
